@@ -708,6 +708,7 @@ class TermCanvas(Canvas):
             self.tab()
         elif not dc and char == b"\b":  # backspace BS
             if x > 0:
+                self.is_rotten_cursor = False
                 self.set_term_cursor(x - 1, y)
         elif not dc and char == b"\a" and self.parsestate != 2:  # BEL
             # we need to check if we're in parsestate 2, as an OSC can be
